@@ -23,7 +23,7 @@ from __future__ import annotations
 
 import math
 from collections.abc import Callable, Iterator, Mapping, Sequence
-from functools import cached_property, reduce
+from functools import cached_property
 from typing import Any, cast, TYPE_CHECKING, TypeAlias
 
 import numpy as np
@@ -309,13 +309,17 @@ class CircuitOperation(ops.Operation):
         if len(self.qubits) > 1 or not protocols.has_unitary(self):
             return NotImplemented
 
-        unitaries = [protocols.unitary(op) for op in self.circuit.all_operations()]
+        # One loop of the mapped circuit: parameters are resolved and a negative repetition count
+        # has already inverted it.
+        unitaries = [protocols.unitary(op) for op in self._mapped_any_loop.all_operations()]
         dim = max((u.shape for u in unitaries), default=(1,))[0]
         u = np.eye(dim, dtype=np.complex128)
-        u = reduce(lambda u1, u2: np.dot(u1, u2, out=u), reversed(unitaries), u)
+        for v in unitaries:
+            # An operation on no qubits (a global phase) has a 1x1 matrix.
+            u = v @ u if v.shape == u.shape else v.item() * u
 
-        if self.repetitions != 1:
-            u = np.linalg.matrix_power(u, self.repetitions)
+        if abs(self.repetitions) != 1:
+            u = np.linalg.matrix_power(u, abs(self.repetitions))
         return u
 
     def _ensure_deterministic_loop_count(self):
